@@ -3,14 +3,23 @@
 //! verdict never depends on HashMap iteration order) + K3 corruptions (every truncation, every
 //! single-byte deletion, every single-byte substitution from a small set) judged by an
 //! independent line classifier.
+//! Public API of both modules (getters, setters, annotation conversions, GffType::from_str / Any,
+//! Phase conversions, file constructors): checked as equivalent routes to the round trip above.
 
 use super::Prop;
 use crate::ctx::{guard, show, unshow, CaseCtx, Ctx, Tier};
 use crate::gen;
 use bio::io::{bed, gff};
+use bio_types::annot::contig::Contig;
+use bio_types::annot::loc::Loc;
+use bio_types::annot::pos::Pos;
+use bio_types::annot::spliced::Spliced;
+use bio_types::strand::{NoStrand, ReqStrand, Strand};
 use multimap::MultiMap;
 use serde::{Deserialize, Serialize};
 use serde_json::{json, Value};
+use std::convert::TryInto;
+use std::path::{Path, PathBuf};
 
 pub struct C13Prop;
 pub static C13: C13Prop = C13Prop;
@@ -103,21 +112,598 @@ fn bed_roundtrip(list: &[BedRec], comments: u8, cc: &mut CaseCtx) {
             }
         }
         let mut rd = bed::Reader::new(&bytes[..]);
-        let got: Vec<Result<BedRec, String>> = rd.records().take(list.len() + 4).map(|x| x.map(|b| from_bed(&b)).map_err(|e| e.to_string())).collect();
-        Ok((bytes, got))
+        let recs: Vec<Result<bed::Record, String>> = rd.records().take(list.len() + 4).map(|x| x.map_err(|e| e.to_string())).collect();
+        // the same records seen through the public accessors name()/score()/strand()/aux(i)
+        let mut getter: Option<(&'static str, String)> = None;
+        for (b, w) in recs.iter().zip(list) {
+            if let Ok(b) = b {
+                getter = getter.or_else(|| bed_getter_mismatch(b, w));
+            }
+        }
+        let got: Vec<Result<BedRec, String>> = recs.iter().map(|x| x.as_ref().map(from_bed).map_err(|e| e.clone())).collect();
+        Ok((bytes, got, getter))
     });
     match r {
         Err(msg) => cc.violation("C13/bed/roundtrip/panic", msg),
         Ok(Err(e)) => cc.violation("C13/bed/writer/error-or-inconsistent-bytes", e),
-        Ok(Ok((bytes, got))) => {
+        Ok(Ok((bytes, got, getter))) => {
             cc.outcome(&bytes);
             let want: Vec<Result<BedRec, String>> = list.iter().cloned().map(Ok).collect();
             if got != want {
                 let sym = if comments > 0 && got.len() != want.len() { "comment-line-not-skipped" } else { "records-differ" };
                 cc.violation(format!("C13/bed/roundtrip/{}", sym), format!("bytes {:?} read back {:?} expected {:?}", show(&bytes), got, want));
+            } else if let Some((field, detail)) = getter {
+                cc.violation(format!("C13/bed/getter/{}-differs", field), format!("bytes {:?} read back: {}", show(&bytes), detail));
             }
         }
     }
+}
+
+// ------------------------------------------------------------------ BED: public accessors, setters, conversions, files
+
+/// '+', '-' or '.' (= neither: `None` or an unknown strand)
+fn strand_class(s: Option<Strand>) -> char {
+    match s {
+        Some(Strand::Forward) => '+',
+        Some(Strand::Reverse) => '-',
+        _ => '.',
+    }
+}
+
+fn text_strand_class(t: Option<&str>) -> char {
+    match t {
+        Some("+") => '+',
+        Some("-") => '-',
+        _ => '.',
+    }
+}
+
+/// first disagreement between the public getters of `b` and the model record: chrom/start/end,
+/// aux(3..), name() = column 4, score() = column 5, strand() = column 6 ("+" forward, "-" reverse,
+/// anything else / absent: neither)
+fn bed_getter_mismatch(b: &bed::Record, want: &BedRec) -> Option<(&'static str, String)> {
+    if b.chrom() != want.chrom {
+        return Some(("chrom", format!("chrom() = {:?}, expected {:?}", b.chrom(), want.chrom)));
+    }
+    if b.start() != want.start {
+        return Some(("start", format!("start() = {}, expected {}", b.start(), want.start)));
+    }
+    if b.end() != want.end {
+        return Some(("end", format!("end() = {}, expected {}", b.end(), want.end)));
+    }
+    for (j, a) in want.aux.iter().enumerate() {
+        if b.aux(3 + j) != Some(a.as_str()) {
+            return Some(("aux", format!("aux({}) = {:?}, expected {:?}", 3 + j, b.aux(3 + j), a)));
+        }
+    }
+    if b.aux(3 + want.aux.len()).is_some() {
+        return Some(("aux", format!("aux({}) = {:?} beyond the {} columns of the record", 3 + want.aux.len(), b.aux(3 + want.aux.len()), 3 + want.aux.len())));
+    }
+    let col = |j: usize| want.aux.get(j).map(|s| s.as_str());
+    if b.name() != col(0) {
+        return Some(("name", format!("name() = {:?}, expected {:?}", b.name(), col(0))));
+    }
+    if b.score() != col(1) {
+        return Some(("score", format!("score() = {:?}, expected {:?}", b.score(), col(1))));
+    }
+    if strand_class(b.strand()) != text_strand_class(col(2)) {
+        return Some(("strand", format!("strand() = {:?} for strand column {:?}", b.strand(), col(2))));
+    }
+    None
+}
+
+/// records through one in-memory writer and one reader
+fn bed_write_read(recs: &[bed::Record]) -> Result<(Vec<u8>, Vec<Result<bed::Record, String>>), String> {
+    let mut bytes = vec![];
+    {
+        let mut w = bed::Writer::new(&mut bytes);
+        for r in recs {
+            w.write(r).map_err(|e| e.to_string())?;
+        }
+    }
+    let mut rd = bed::Reader::new(&bytes[..]);
+    let got = rd.records().take(recs.len() + 3).map(|x| x.map_err(|e| e.to_string())).collect();
+    Ok((bytes, got))
+}
+
+/// `Contig::from(&record)`: refid = chrom, start, length = end - start, strand of column 6
+fn bed_to_contig_check(b: &bed::Record, chrom: &str, start: u64, end: u64, strand: char, cc: &mut CaseCtx) {
+    if end < start || end > isize::MAX as u64 {
+        return;
+    }
+    let c: Contig<String, Strand> = Contig::from(b);
+    if c.refid().as_str() != chrom || c.start() != start as isize || c.length() != (end - start) as usize {
+        cc.violation("C13/bed/to-contig/coordinates-differ", format!("record {:?} -> contig {:?}, expected {}:{}-{}", b, c, chrom, start, end));
+    }
+    if strand_class(Some(c.strand())) != strand {
+        cc.violation("C13/bed/to-contig/strand-differs", format!("record {:?} -> contig {:?}, expected strand {:?}", b, c, strand));
+    }
+}
+
+/// one record: getters on the record as built through the setters, getters on the record read
+/// back, and the record -> Contig conversion
+fn bed_access_case(rec: &BedRec, cc: &mut CaseCtx) {
+    cc.set_nontrivial(!rec.aux.is_empty());
+    let r = guard(|| {
+        let built = to_bed(rec);
+        if let Some((field, detail)) = bed_getter_mismatch(&built, rec) {
+            cc.violation(format!("C13/bed/getter/{}-differs", field), format!("record built through set_*/push_aux: {}", detail));
+            return;
+        }
+        match bed_write_read(std::slice::from_ref(&built)) {
+            Err(e) => cc.violation("C13/bed/writer/error-or-inconsistent-bytes", e),
+            Ok((bytes, got)) => {
+                cc.outcome(&bytes);
+                if got.len() != 1 || got[0].as_ref().ok() != Some(&built) {
+                    cc.violation("C13/bed/roundtrip/records-differ", format!("bytes {:?} read back {:?} expected {:?}", show(&bytes), got, built));
+                    return;
+                }
+                let back = got[0].as_ref().unwrap();
+                if let Some((field, detail)) = bed_getter_mismatch(back, rec) {
+                    cc.violation(format!("C13/bed/getter/{}-differs", field), format!("bytes {:?} read back: {}", show(&bytes), detail));
+                    return;
+                }
+                bed_to_contig_check(back, &rec.chrom, rec.start, rec.end, text_strand_class(rec.aux.get(2).map(|s| s.as_str())), cc);
+            }
+        }
+    });
+    if let Err(msg) = r {
+        cc.violation("C13/bed/access/panic", msg);
+    }
+}
+
+fn bed_access_records() -> Vec<BedRec> {
+    let chroms = ["chr1", "c h", "2"];
+    let coords: [(u64, u64); 4] = [(0, 0), (1, 5), (1000, 1_000_000), (7, isize::MAX as u64)];
+    let names = ["", "n", "a b"];
+    let scores = ["", "0", "960", "up"];
+    let strands = ["+", "-", ".", "", "x", "+-"];
+    let extra = ["7", "9", "0", "2", "1,2,", "0,3,"];
+    let mut cols: Vec<Vec<String>> = vec![vec![]];
+    for n in names {
+        cols.push(vec![n.to_string()]);
+        for sc in scores {
+            cols.push(vec![n.to_string(), sc.to_string()]);
+            for st in strands {
+                let base = vec![n.to_string(), sc.to_string(), st.to_string()];
+                for more in [0usize, 1, 6] {
+                    let mut c = base.clone();
+                    c.extend(extra[..more].iter().map(|s| s.to_string()));
+                    cols.push(c);
+                }
+            }
+        }
+    }
+    let mut v = vec![];
+    for (i, aux) in cols.into_iter().enumerate() {
+        for j in 0..2 {
+            let (s, e) = coords[(i + 2 * j) % coords.len()];
+            v.push(BedRec { chrom: chroms[(i + j) % chroms.len()].to_string(), start: s, end: e, aux: aux.clone() });
+        }
+    }
+    v
+}
+
+#[derive(Clone, Debug, PartialEq, Eq, Serialize, Deserialize)]
+enum SetOp {
+    Name(String),
+    Score(String),
+}
+
+/// set_name / set_score on a record with 0, 1, 2+ auxiliary columns.  Documented behaviour: the
+/// name is column 4 and the score column 5; set_name replaces (or creates) column 4; set_score
+/// replaces (or creates) column 5, creating an empty name first when the record has none; no other
+/// column changes.
+fn bed_set_case(base: &BedRec, ops: &[SetOp], cc: &mut CaseCtx) {
+    cc.set_nontrivial(base.aux.len() < 2 || ops.len() > 1);
+    let r = guard(|| {
+        let mut b = to_bed(base);
+        let mut model = base.clone();
+        if let Some((field, detail)) = bed_getter_mismatch(&b, &model) {
+            // the accessors disagree before any setter ran: not a setter defect
+            cc.violation(format!("C13/bed/getter/{}-differs", field), format!("record built through set_*/push_aux: {}", detail));
+            return;
+        }
+        for op in ops {
+            let entry = match op {
+                SetOp::Name(n) => {
+                    b.set_name(n);
+                    if model.aux.is_empty() {
+                        model.aux.push(n.clone());
+                    } else {
+                        model.aux[0] = n.clone();
+                    }
+                    "set_name"
+                }
+                SetOp::Score(s) => {
+                    b.set_score(s);
+                    if model.aux.is_empty() {
+                        model.aux.push(String::new());
+                    }
+                    if model.aux.len() < 2 {
+                        model.aux.push(s.clone());
+                    } else {
+                        model.aux[1] = s.clone();
+                    }
+                    "set_score"
+                }
+            };
+            if let Some((field, detail)) = bed_getter_mismatch(&b, &model) {
+                let sym = match (op, field) {
+                    (SetOp::Name(_), "name") | (SetOp::Score(_), "score") => "value-not-read-back".to_string(),
+                    _ => format!("{}-changed", field),
+                };
+                cc.violation(format!("C13/bed/{}/{}", entry, sym), format!("after {:?} on {:?}: {}", op, base, detail));
+                return;
+            }
+        }
+        cc.outcome(&model.aux);
+        // the same record through the already-checked route
+        if b != to_bed(&model) {
+            cc.violation("C13/bed/setters/differs-from-push_aux-route", format!("{:?} on {:?} gives {:?}, expected {:?}", ops, base, b, to_bed(&model)));
+            return;
+        }
+        match bed_write_read(std::slice::from_ref(&b)) {
+            Err(e) => cc.violation("C13/bed/writer/error-or-inconsistent-bytes", e),
+            Ok((bytes, got)) => {
+                let ok = got.len() == 1 && got[0].as_ref().map(|g| from_bed(g) == model && bed_getter_mismatch(g, &model).is_none()).unwrap_or(false);
+                if !ok {
+                    cc.violation("C13/bed/setters/roundtrip-differs", format!("{:?} on {:?}: bytes {:?} read back {:?}, expected {:?}", ops, base, show(&bytes), got, model));
+                }
+            }
+        }
+    });
+    if let Err(msg) = r {
+        cc.violation("C13/bed/setters/panic", msg);
+    }
+}
+
+fn bed_set_cases() -> Vec<(BedRec, Vec<SetOp>)> {
+    let mut single = vec![];
+    for n in ["", "nm", "a b"] {
+        single.push(SetOp::Name(n.to_string()));
+    }
+    for s in ["", "0", "7.5"] {
+        single.push(SetOp::Score(s.to_string()));
+    }
+    let mut seqs: Vec<Vec<SetOp>> = single.iter().map(|o| vec![o.clone()]).collect();
+    for a in &single {
+        for b in &single {
+            seqs.push(vec![a.clone(), b.clone()]);
+        }
+    }
+    let cols = ["n0", "5", "-", "x", "y"];
+    let mut v = vec![];
+    for k in 0..=cols.len() {
+        for (chrom, s, e) in [("chr1", 1u64, 5u64), ("", 0, 0)] {
+            let base = BedRec { chrom: chrom.to_string(), start: s, end: e, aux: cols[..k].iter().map(|s| s.to_string()).collect() };
+            for q in &seqs {
+                v.push((base.clone(), q.clone()));
+            }
+        }
+    }
+    v
+}
+
+#[derive(Clone, Copy, Debug, PartialEq, Eq, Serialize, Deserialize)]
+enum StrandIn {
+    ReqForward,
+    ReqReverse,
+    Forward,
+    Reverse,
+    Unknown,
+    NoStrand,
+}
+
+const STRANDS_IN: [StrandIn; 6] = [StrandIn::ReqForward, StrandIn::ReqReverse, StrandIn::Forward, StrandIn::Reverse, StrandIn::Unknown, StrandIn::NoStrand];
+
+impl StrandIn {
+    /// "By convention, in BED and GFF files, the forward strand is `+`, the reverse strand is `-`,
+    /// and unknown or unspecified strands are `.`" (bio_types::strand)
+    fn symbol(self) -> &'static str {
+        match self {
+            StrandIn::ReqForward | StrandIn::Forward => "+",
+            StrandIn::ReqReverse | StrandIn::Reverse => "-",
+            StrandIn::Unknown | StrandIn::NoStrand => ".",
+        }
+    }
+}
+
+#[derive(Clone, Debug, PartialEq, Eq, Serialize, Deserialize)]
+enum Annot {
+    Pos { pos: u64 },
+    Contig { start: u64, length: u64 },
+    /// exon lengths and exon starts (relative to `start`, left to right); `single`: built with
+    /// `Spliced::new` instead of `Spliced::with_lengths_starts`
+    Spliced { start: u64, lengths: Vec<u64>, starts: Vec<u64>, single: bool },
+}
+
+impl Annot {
+    fn entry(&self) -> &'static str {
+        match self {
+            Annot::Pos { .. } => "from-pos",
+            Annot::Contig { .. } => "from-contig",
+            Annot::Spliced { .. } => "from-spliced",
+        }
+    }
+    fn span(&self) -> (u64, u64) {
+        match self {
+            Annot::Pos { pos } => (*pos, pos + 1),
+            Annot::Contig { start, length } => (*start, start + length),
+            Annot::Spliced { start, lengths, starts, .. } => (*start, start + starts[starts.len() - 1] + lengths[lengths.len() - 1]),
+        }
+    }
+}
+
+fn conv_record_with<S: Into<Strand> + Copy>(refid: &str, a: &Annot, s: S) -> Result<bed::Record, String> {
+    Ok(match a {
+        Annot::Pos { pos } => bed::Record::from(Pos::new(refid.to_string(), *pos as isize, s)),
+        Annot::Contig { start, length } => bed::Record::from(Contig::new(refid.to_string(), *start as isize, *length as usize, s)),
+        Annot::Spliced { start, lengths, starts, single } => {
+            let sp = if *single {
+                Spliced::new(refid.to_string(), *start as isize, lengths[0] as usize, s)
+            } else {
+                let l: Vec<usize> = lengths.iter().map(|&x| x as usize).collect();
+                let st: Vec<usize> = starts.iter().map(|&x| x as usize).collect();
+                Spliced::with_lengths_starts(refid.to_string(), *start as isize, &l, &st, s).map_err(|e| format!("{:?}", e))?
+            };
+            bed::Record::from(sp)
+        }
+    })
+}
+
+fn conv_record(refid: &str, a: &Annot, s: StrandIn) -> Result<bed::Record, String> {
+    match s {
+        StrandIn::ReqForward => conv_record_with(refid, a, ReqStrand::Forward),
+        StrandIn::ReqReverse => conv_record_with(refid, a, ReqStrand::Reverse),
+        StrandIn::Forward => conv_record_with(refid, a, Strand::Forward),
+        StrandIn::Reverse => conv_record_with(refid, a, Strand::Reverse),
+        StrandIn::Unknown => conv_record_with(refid, a, Strand::Unknown),
+        StrandIn::NoStrand => conv_record_with(refid, a, NoStrand::Unknown),
+    }
+}
+
+/// "1,2,3," or "1,2,3" -> [1,2,3]
+fn comma_list(t: &str) -> Option<Vec<u64>> {
+    let t = t.strip_suffix(',').unwrap_or(t);
+    if t.is_empty() {
+        return Some(vec![]);
+    }
+    t.split(',').map(|p| p.parse::<u64>().ok()).collect()
+}
+
+/// What the rustdoc of the three `From` impls and the BED column definitions say about the record
+/// of an annotation: chrom/start/end of the annotation, an empty name, a BED score, the strand
+/// symbol in column 6; for a spliced annotation the 12-column layout with thickStart/thickEnd =
+/// start/end, an item colour, blockCount, blockSizes and blockStarts (comma lists, a trailing
+/// comma is allowed by the format).
+fn conv_record_check(b: &bed::Record, refid: &str, a: &Annot, s: StrandIn, route: &str, cc: &mut CaseCtx) -> bool {
+    let entry = a.entry();
+    let (start, end) = a.span();
+    let mut found: Vec<(String, String)> = vec![];
+    let mut bad = |sym: &str, what: String| found.push((format!("C13/bed/{}/{}", entry, sym), format!("{} record {:?} of {:?} on {:?} ({:?}): {}", route, b, a, refid, s, what)));
+    if b.chrom() != refid || b.start() != start || b.end() != end {
+        bad("coordinates-differ", format!("expected {}:{}-{}", refid, start, end));
+    }
+    if b.name() != Some("") {
+        bad("name-not-empty", format!("name() = {:?}", b.name()));
+    }
+    if !b.score().map(|t| t.parse::<u32>().map(|x| x <= 1000).unwrap_or(false)).unwrap_or(false) {
+        bad("score-not-a-bed-score", format!("score() = {:?}", b.score()));
+    }
+    if b.aux(5) != Some(s.symbol()) || strand_class(b.strand()) != text_strand_class(Some(s.symbol())) {
+        bad("strand-differs", format!("column 6 = {:?}, strand() = {:?}, expected {:?}", b.aux(5), b.strand(), s.symbol()));
+    }
+    if let Annot::Spliced { lengths, starts, .. } = a {
+        let num = |i: usize| b.aux(i).and_then(|t| t.parse::<u64>().ok());
+        if num(6) != Some(start) || num(7) != Some(end) {
+            bad("thick-region-differs", format!("thickStart/thickEnd = {:?}/{:?}, expected {}/{}", b.aux(6), b.aux(7), start, end));
+        }
+        let rgb_ok = match b.aux(8) {
+            Some("0") => true,
+            Some(t) => {
+                let p: Vec<&str> = t.split(',').collect();
+                p.len() == 3 && p.iter().all(|x| x.parse::<u8>().is_ok())
+            }
+            None => false,
+        };
+        if !rgb_ok {
+            bad("item-rgb-invalid", format!("column 9 = {:?}", b.aux(8)));
+        }
+        if num(9) != Some(lengths.len() as u64) {
+            bad("block-count-differs", format!("column 10 = {:?}, expected {}", b.aux(9), lengths.len()));
+        }
+        if b.aux(10).and_then(comma_list).as_ref() != Some(lengths) {
+            bad("block-sizes-differ", format!("column 11 = {:?}, expected {:?}", b.aux(10), lengths));
+        }
+        if b.aux(11).and_then(comma_list).as_ref() != Some(starts) {
+            bad("block-starts-differ", format!("column 12 = {:?}, expected {:?}", b.aux(11), starts));
+        }
+        if b.aux(12).is_some() {
+            bad("column-count-not-12", format!("column 13 = {:?}", b.aux(12)));
+        }
+    }
+    let clean = found.is_empty();
+    for (k, d) in found {
+        cc.violation(k, d);
+    }
+    clean
+}
+
+/// annotation -> record (checked), written and read back (checked again), -> Contig
+fn bed_conv_case(refid: &str, a: &Annot, s: StrandIn, cc: &mut CaseCtx) {
+    cc.set_nontrivial(s.symbol() != "+" || matches!(a, Annot::Spliced { lengths, .. } if lengths.len() > 1));
+    let entry = a.entry();
+    let r = guard(|| {
+        let b = match conv_record(refid, a, s) {
+            Ok(b) => b,
+            Err(e) => {
+                cc.violation(format!("C13/bed/{}/annotation-constructor-error", entry), format!("{:?}: {}", a, e));
+                return;
+            }
+        };
+        if !conv_record_check(&b, refid, a, s, "converted", cc) {
+            return;
+        }
+        match bed_write_read(std::slice::from_ref(&b)) {
+            Err(e) => cc.violation("C13/bed/writer/error-or-inconsistent-bytes", e),
+            Ok((bytes, got)) => {
+                cc.outcome(&bytes);
+                if got.len() != 1 || got[0].as_ref().ok() != Some(&b) {
+                    cc.violation(format!("C13/bed/{}/roundtrip-differs", entry), format!("bytes {:?} read back {:?} expected {:?}", show(&bytes), got, b));
+                    return;
+                }
+                let back = got[0].as_ref().unwrap();
+                if !conv_record_check(back, refid, a, s, "read-back", cc) {
+                    return;
+                }
+                let (start, end) = a.span();
+                bed_to_contig_check(back, refid, start, end, text_strand_class(Some(s.symbol())), cc);
+            }
+        }
+    });
+    if let Err(msg) = r {
+        cc.violation(format!("C13/bed/{}/panic", entry), msg);
+    }
+}
+
+fn bed_conv_cases() -> Vec<(String, Annot, StrandIn)> {
+    let mut annots: Vec<(usize, Annot)> = vec![];
+    for pos in [0u64, 1, 7, 1_000_000] {
+        annots.push((2, Annot::Pos { pos }));
+    }
+    for start in [0u64, 3, 1_000_000] {
+        for length in [0u64, 1, 9] {
+            annots.push((2, Annot::Contig { start, length }));
+        }
+    }
+    let exon = [1u64, 3, 10];
+    let intron = [1u64, 5];
+    for start in [0u64, 7, 1_000_000] {
+        for &e0 in &exon {
+            annots.push((1, Annot::Spliced { start, lengths: vec![e0], starts: vec![0], single: true }));
+            annots.push((1, Annot::Spliced { start, lengths: vec![e0], starts: vec![0], single: false }));
+            for &i1 in &intron {
+                for &e1 in &exon {
+                    annots.push((1, Annot::Spliced { start, lengths: vec![e0, e1], starts: vec![0, e0 + i1], single: false }));
+                    for &i2 in &intron {
+                        for &e2 in &exon {
+                            annots.push((1, Annot::Spliced { start, lengths: vec![e0, e1, e2], starts: vec![0, e0 + i1, e0 + i1 + e1 + i2], single: false }));
+                        }
+                    }
+                }
+            }
+        }
+    }
+    // the example of the rustdoc
+    annots.push((1, Annot::Spliced { start: 765265, lengths: vec![808, 52, 109], starts: vec![0, 864, 984], single: false }));
+    let refids = ["chr1", "c h"];
+    let mut v = vec![];
+    for (nref, a) in annots {
+        for refid in &refids[..nref] {
+            for s in STRANDS_IN {
+                v.push((refid.to_string(), a.clone(), s));
+            }
+        }
+    }
+    v
+}
+
+/// private scratch directory of one unit (or of a replay)
+fn scratch_dir(unit: &str) -> PathBuf {
+    let d = std::env::temp_dir().join(format!("bmc-{}-{}", std::process::id(), unit));
+    let _ = std::fs::remove_dir_all(&d);
+    std::fs::create_dir_all(&d).unwrap_or_else(|e| panic!("cannot create scratch directory {:?}: {}", d, e));
+    d
+}
+
+/// `Writer::to_file` / `Reader::from_file` must be the same route as `Writer::new` / `Reader::new`
+/// on the file's bytes
+fn bed_file_case(dir: &Path, list: &[BedRec], cc: &mut CaseCtx) {
+    cc.nontrivial();
+    let path = dir.join("case.bed");
+    let recs: Vec<bed::Record> = list.iter().map(to_bed).collect();
+    let r = guard(|| {
+        let (mem, mem_items) = match bed_write_read(&recs) {
+            Ok(x) => x,
+            Err(e) => {
+                cc.violation("C13/bed/writer/error-or-inconsistent-bytes", e);
+                return;
+            }
+        };
+        match bed::Writer::to_file(&path) {
+            Err(e) => {
+                cc.violation("C13/bed/to_file/error", format!("{:?}: {}", path, e));
+                return;
+            }
+            Ok(mut w) => {
+                for r in &recs {
+                    if let Err(e) = w.write(r) {
+                        cc.violation("C13/bed/to_file/error", format!("write: {}", e));
+                        return;
+                    }
+                }
+            }
+        }
+        let disk = std::fs::read(&path).unwrap_or_default();
+        cc.outcome(&disk);
+        if disk != mem {
+            cc.violation("C13/bed/to_file/bytes-differ-from-in-memory-writer", format!("file holds {:?}, Writer::new produced {:?}", show(&disk), show(&mem)));
+            return;
+        }
+        let items: Vec<Result<bed::Record, String>> = match bed::Reader::from_file(&path) {
+            Err(e) => {
+                cc.violation("C13/bed/from_file/error", format!("{:?}: {:#}", path, e));
+                return;
+            }
+            Ok(mut rd) => rd.records().take(list.len() + 3).map(|x| x.map_err(|e| e.to_string())).collect(),
+        };
+        let model_ok = items.len() == list.len() && items.iter().zip(list).all(|(g, w)| g.as_ref().map(|g| from_bed(g) == *w && bed_getter_mismatch(g, w).is_none()).unwrap_or(false));
+        if items != mem_items || !model_ok {
+            cc.violation("C13/bed/from_file/records-differ", format!("file {:?} read as {:?}, Reader::new gives {:?}, written {:?}", show(&disk), items, mem_items, list));
+        }
+    });
+    if let Err(msg) = r {
+        cc.violation("C13/bed/file/panic", msg);
+    }
+}
+
+/// a path that does not exist is an error of the constructor, for all four file constructors
+fn missing_file_case(dir: &Path, cc: &mut CaseCtx) {
+    cc.nontrivial();
+    let missing = dir.join("no-such-file");
+    let _ = std::fs::remove_file(&missing);
+    let in_missing_dir = dir.join("no-such-dir").join("x");
+    let r = guard(|| {
+        if bed::Reader::from_file(&missing).is_ok() {
+            cc.violation("C13/bed/from_file/missing-file-not-an-error", format!("{:?}", missing));
+        }
+        if gff::Reader::from_file(&missing, gff::GffType::GFF3).is_ok() {
+            cc.violation("C13/gff/from_file/missing-file-not-an-error", format!("{:?}", missing));
+        }
+        if bed::Writer::to_file(&in_missing_dir).is_ok() {
+            cc.violation("C13/bed/to_file/missing-directory-not-an-error", format!("{:?}", in_missing_dir));
+        }
+        if gff::Writer::to_file(&in_missing_dir, gff::GffType::GFF3).is_ok() {
+            cc.violation("C13/gff/to_file/missing-directory-not-an-error", format!("{:?}", in_missing_dir));
+        }
+    });
+    if let Err(msg) = r {
+        cc.violation("C13/file/missing-path/panic", msg);
+    }
+}
+
+fn bed_file_lists() -> Vec<Vec<BedRec>> {
+    let mut v = vec![vec![]];
+    for k in 0..=4usize {
+        let recs = bed_records(k);
+        let n = recs.len();
+        for i in (0..n).step_by(7) {
+            v.push(vec![recs[i].clone()]);
+            v.push(vec![recs[i].clone(), recs[(i * 3 + 1) % n].clone(), recs[(i * 5 + 2) % n].clone()]);
+        }
+    }
+    v
 }
 
 // ------------------------------------------------------------------ GFF
@@ -127,6 +713,12 @@ enum Dialect {
     GFF3,
     GFF2,
     GTF2,
+    /// `GffType::Any` with the triple of GFF3
+    AnyGFF3,
+    /// `GffType::Any` with the triple of GFF2 (which is also the triple of GTF2)
+    AnyGFF2,
+    /// `GffType::Any(':', '!', '/')`
+    AnyCustom,
 }
 
 impl Dialect {
@@ -135,6 +727,9 @@ impl Dialect {
             Dialect::GFF3 => gff::GffType::GFF3,
             Dialect::GFF2 => gff::GffType::GFF2,
             Dialect::GTF2 => gff::GffType::GTF2,
+            Dialect::AnyGFF3 => gff::GffType::Any(b'=', b';', b','),
+            Dialect::AnyGFF2 => gff::GffType::Any(b' ', b';', 0u8),
+            Dialect::AnyCustom => gff::GffType::Any(b':', b'!', b'/'),
         }
     }
     fn name(self) -> &'static str {
@@ -142,13 +737,29 @@ impl Dialect {
             Dialect::GFF3 => "gff3",
             Dialect::GFF2 => "gff2",
             Dialect::GTF2 => "gtf2",
+            Dialect::AnyGFF3 => "any-gff3",
+            Dialect::AnyGFF2 => "any-gff2",
+            Dialect::AnyCustom => "any-custom",
         }
     }
     /// (key/value delimiter, pair terminator)
     fn seps(self) -> (char, char) {
         match self {
-            Dialect::GFF3 => ('=', ';'),
+            Dialect::GFF3 | Dialect::AnyGFF3 => ('=', ';'),
+            Dialect::AnyCustom => (':', '!'),
             _ => (' ', ';'),
+        }
+    }
+    /// GFF3-style attribute alphabet (the others use the GFF2 one, which is free of ':' '!' '/')
+    fn gff3_like(self) -> bool {
+        matches!(self, Dialect::GFF3 | Dialect::AnyGFF3)
+    }
+    /// the built-in dialects an `Any` triple must be indistinguishable from
+    fn builtins(self) -> &'static [Dialect] {
+        match self {
+            Dialect::AnyGFF3 => &[Dialect::GFF3],
+            Dialect::AnyGFF2 => &[Dialect::GFF2, Dialect::GTF2],
+            _ => &[],
         }
     }
 }
@@ -213,14 +824,14 @@ fn typed_fields(g: &gff::Record) -> Vec<String> {
 }
 
 fn attribute_maps(d: Dialect) -> Vec<Vec<(String, String)>> {
-    let keys: Vec<&str> = match d {
-        Dialect::GFF3 => vec!["ID", "Note", "k 2", "x"],
-        _ => vec!["ID", "Note", "gene_id", "x"],
+    let keys: Vec<&str> = match d.gff3_like() {
+        true => vec!["ID", "Note", "k 2", "x"],
+        false => vec!["ID", "Note", "gene_id", "x"],
     };
-    let vals: Vec<&str> = match d {
-        Dialect::GFF3 => vec!["v", "1", "a b", "y.z", "-", "p:q|r"],
+    let vals: Vec<&str> = match d.gff3_like() {
+        true => vec!["v", "1", "a b", "y.z", "-", "p:q|r"],
         // ',' and '=' are ordinary characters in the GFF2/GTF2 attribute syntax
-        _ => vec!["v", "1", "a_b", "y.z", "-", "p,q", "x=y"],
+        false => vec!["v", "1", "a_b", "y.z", "-", "p,q", "x=y"],
     };
     let p = |k: &str, v: &str| (k.to_string(), v.to_string());
     let mut maps: Vec<Vec<(String, String)>> = vec![vec![]];
@@ -265,6 +876,10 @@ fn gff_line(r: &GffRec, attr_col: &str) -> String {
 fn read_gff(bytes: &[u8], d: Dialect, limit: usize) -> Vec<Result<gff::Record, String>> {
     let mut rd = gff::Reader::new(bytes, d.ty());
     rd.records().take(limit).map(|x| x.map_err(|e| e.to_string())).collect()
+}
+
+fn line_of(l: &Option<String>) -> &str {
+    l.as_deref().unwrap_or("")
 }
 
 /// (a) writer conformance, (b) reader on every permutation of the written pairs, (c) end to end
@@ -332,6 +947,67 @@ fn gff_roundtrip(r: &GffRec, d: Dialect, cc: &mut CaseCtx) {
                 cc.violation(format!("C13/{}/roundtrip/records-differ", dn), format!("wrote {:?}, read back {:?}, expected {:?}", text, items, want));
                 return;
             }
+            // the same two records through the public getters
+            for (route, g) in [("built through the *_mut accessors", &want), ("read back", items[0].as_ref().unwrap())] {
+                if let Some((field, detail)) = gff_getter_mismatch(g, r) {
+                    cc.violation(format!("C13/{}/getter/{}-differs", dn, field), format!("record {} from {:?}: {}", route, text, detail));
+                    return;
+                }
+            }
+        }
+    }
+    // ---- an `Any` triple equal to a built-in dialect's is indistinguishable from the built-in
+    for &b in d.builtins() {
+        let g = to_gff(r);
+        let joined: Option<String> = if d == Dialect::AnyGFF3 {
+            let col: Vec<String> = model.iter().map(|(k, vs)| format!("{}{}{}", k, delim, vs.join(","))).collect();
+            Some(gff_line(r, &col.join(&term.to_string())))
+        } else {
+            None
+        };
+        let res = guard(|| {
+            let wr = |ty: gff::GffType| -> Result<Vec<u8>, String> {
+                let mut out = vec![];
+                {
+                    let mut w = gff::Writer::new(&mut out, ty);
+                    w.write(&g).map_err(|e| e.to_string())?;
+                }
+                Ok(out)
+            };
+            let x = wr(d.ty())?;
+            let y = wr(b.ty())?;
+            let (rx, ry) = (read_gff(&x, d, 3), read_gff(&x, b, 3));
+            // and on a hand-written line in which the values of a key are joined by the built-in's
+            // value delimiter (the writer repeats the key instead): whatever the built-in reads
+            let (jx, jy) = match &joined {
+                Some(line) => (read_gff(line.as_bytes(), d, 3), read_gff(line.as_bytes(), b, 3)),
+                None => (vec![], vec![]),
+            };
+            Ok::<_, String>((x, y, rx, ry, jx, jy))
+        });
+        match res {
+            Err(msg) => {
+                cc.violation(format!("C13/{}/vs-builtin/panic", dn), msg);
+                return;
+            }
+            Ok(Err(e)) => {
+                cc.violation(format!("C13/{}/writer/error", dn), e);
+                return;
+            }
+            Ok(Ok((x, y, rx, ry, jx, jy))) => {
+                if jx != jy {
+                    cc.violation(format!("C13/{}/reader/differs-from-builtin", dn), format!("{:?}: {:?} reads {:?}, {} reads {:?}", line_of(&joined), d.ty(), jx, b.name(), jy));
+                    return;
+                }
+                if x != y {
+                    cc.violation(format!("C13/{}/writer/differs-from-builtin", dn), format!("same record object: {:?} writes {:?}, {} writes {:?}", d.ty(), show(&x), b.name(), show(&y)));
+                    return;
+                }
+                if rx != ry {
+                    cc.violation(format!("C13/{}/reader/differs-from-builtin", dn), format!("{:?}: {:?} reads {:?}, {} reads {:?}", show(&x), d.ty(), rx, b.name(), ry));
+                    return;
+                }
+            }
         }
     }
     // ---- (b) the reader on every order of the pairs (HashMap order must not matter)
@@ -395,6 +1071,13 @@ fn gff_list_roundtrip(list: &[GffRec], d: Dialect, cc: &mut CaseCtx) {
                     format!("C13/{}/list/records-differ", dn),
                     format!("records {:?} written through one writer as {:?} read back as {:?}", list, show(&bytes), got),
                 );
+            } else {
+                for (g, w) in got.iter().zip(list) {
+                    if let Some((field, detail)) = g.as_ref().ok().and_then(|g| gff_getter_mismatch(g, w)) {
+                        cc.violation(format!("C13/{}/getter/{}-differs", dn, field), format!("list {:?} read back: {}", show(&bytes), detail));
+                        break;
+                    }
+                }
             }
         }
     }
@@ -403,7 +1086,7 @@ fn gff_list_roundtrip(list: &[GffRec], d: Dialect, cc: &mut CaseCtx) {
 fn gff_list_records(d: Dialect) -> Vec<GffRec> {
     let p = |k: &str, v: &str| (k.to_string(), v.to_string());
     let mk = |feature: &str, phase: Option<u8>, attrs: Vec<(String, String)>| GffRec { seqname: "chr1".into(), source: "src".into(), feature: feature.into(), start: 3, end: 9, score: ".".into(), strand: "+".into(), phase, attrs };
-    let v2 = if d == Dialect::GFF3 { "a b" } else { "a_b" };
+    let v2 = if d.gff3_like() { "a b" } else { "a_b" };
     vec![
         mk("gene", None, vec![p("ID", "gene1")]),
         mk("bare", Some(0), vec![]),
@@ -411,6 +1094,341 @@ fn gff_list_records(d: Dialect) -> Vec<GffRec> {
         mk("bare2", None, vec![]),
         mk("long", Some(1), vec![p("ID", "a-much-longer-attribute-value"), p("x", "1")]),
     ]
+}
+
+// ------------------------------------------------------------------ GFF: getters, GffType, Phase, files
+
+/// score(): "." is None, otherwise the column as an unsigned integer, None when it is not one
+fn score_model(t: &str) -> Option<u64> {
+    if !t.is_empty() && t.bytes().all(|c| c.is_ascii_digit()) {
+        t.parse::<u64>().ok()
+    } else {
+        None
+    }
+}
+
+/// first disagreement between the public getters of `g` and the model record
+fn gff_getter_mismatch(g: &gff::Record, r: &GffRec) -> Option<(&'static str, String)> {
+    if g.seqname() != r.seqname {
+        return Some(("seqname", format!("seqname() = {:?}, expected {:?}", g.seqname(), r.seqname)));
+    }
+    if g.source() != r.source {
+        return Some(("source", format!("source() = {:?}, expected {:?}", g.source(), r.source)));
+    }
+    if g.feature_type() != r.feature {
+        return Some(("feature_type", format!("feature_type() = {:?}, expected {:?}", g.feature_type(), r.feature)));
+    }
+    if *g.start() != r.start {
+        return Some(("start", format!("start() = {}, expected {}", g.start(), r.start)));
+    }
+    if *g.end() != r.end {
+        return Some(("end", format!("end() = {}, expected {}", g.end(), r.end)));
+    }
+    if g.score() != score_model(&r.score) {
+        return Some(("score", format!("score() = {:?} for score column {:?}, expected {:?}", g.score(), r.score, score_model(&r.score))));
+    }
+    if strand_class(g.strand()) != text_strand_class(Some(r.strand.as_str())) {
+        return Some(("strand", format!("strand() = {:?} for strand column {:?}", g.strand(), r.strand)));
+    }
+    let want_phase = r.phase.filter(|&p| p < 3);
+    let as_opt: Result<Option<u8>, ()> = TryInto::<Option<u8>>::try_into(g.phase().clone());
+    let as_u8: Result<u8, ()> = TryInto::<u8>::try_into(g.phase().clone());
+    if g.phase() != &gff::Phase::from(want_phase) || as_opt != Ok(want_phase) || as_u8 != want_phase.ok_or(()) {
+        return Some(("phase", format!("phase() = {:?} (as Option<u8> {:?}, as u8 {:?}), expected {:?}", g.phase(), as_opt, as_u8, want_phase)));
+    }
+    None
+}
+
+/// the fixed columns as users read them: a (score, strand, phase) grid with the other columns cycling
+fn gff_access_records(d: Dialect) -> Vec<GffRec> {
+    let p = |k: &str, v: &str| (k.to_string(), v.to_string());
+    let seqnames = ["chr1", "2", "c h"];
+    let sources = ["src", ".", "s 1"];
+    // never "gene": disjoint from the records of gff_records()
+    let features = ["exon", "CDS"];
+    let coords: [(u64, u64); 4] = [(1, 1), (3, 9), (0, 0), (u64::MAX - 1, u64::MAX)];
+    let attrs: [Vec<(String, String)>; 3] = [vec![], vec![p("ID", "a")], vec![p("Note", "x"), p("Note", "y.z")]];
+    let mut v = vec![];
+    let mut i = 0usize;
+    for score in [".", "0", "5", "1000", "18446744073709551615", "0.5", "-1", "1e3"] {
+        for strand in ["+", "-", ".", "?"] {
+            for phase in [None, Some(0u8), Some(1), Some(2)] {
+                let (start, end) = coords[i % 4];
+                v.push(GffRec {
+                    seqname: seqnames[i % 3].into(),
+                    source: sources[(i / 3) % 3].into(),
+                    feature: features[(i / 2) % 2].into(),
+                    start,
+                    end,
+                    score: score.into(),
+                    strand: strand.into(),
+                    phase,
+                    attrs: attrs[(i + d as usize) % 3].clone(),
+                });
+                i += 1;
+            }
+        }
+    }
+    v
+}
+
+/// a record with a multi-valued and a second attribute, free of every dialect's syntax characters
+fn probe_record() -> GffRec {
+    let p = |k: &str, v: &str| (k.to_string(), v.to_string());
+    GffRec { seqname: "chr1".into(), source: "src".into(), feature: "gene".into(), start: 3, end: 9, score: "5".into(), strand: "-".into(), phase: Some(1), attrs: vec![p("Note", "x"), p("Note", "y.z"), p("ID", "m")] }
+}
+
+const TYPE_NAMES: [&str; 9] = ["gff3", "gff2", "gtf2", "", "unknown", "xtf9", "gff", "gff4", "bed"];
+
+/// `GffType::from_str`: the three documented names give the built-in dialects, anything else is an error
+fn gff_type_str_case(name: &str, cc: &mut CaseCtx) {
+    cc.nontrivial();
+    let want = match name {
+        "gff3" => Some(Dialect::GFF3),
+        "gff2" => Some(Dialect::GFF2),
+        "gtf2" => Some(Dialect::GTF2),
+        _ => None,
+    };
+    let parsed = guard(|| <gff::GffType as std::str::FromStr>::from_str(name));
+    cc.outcome(&parsed.as_ref().map(|r| r.is_ok()).unwrap_or(false));
+    match (parsed, want) {
+        (Err(msg), _) => cc.violation("C13/gff-type/from_str/panic", msg),
+        (Ok(Err(e)), Some(_)) => cc.violation("C13/gff-type/from_str/known-name-rejected", format!("{:?} -> Err({:?})", name, e)),
+        (Ok(Ok(t)), None) => cc.violation("C13/gff-type/from_str/unknown-name-accepted", format!("{:?} -> {:?}", name, t)),
+        (Ok(Err(_)), None) => {}
+        (Ok(Ok(t)), Some(d)) => {
+            if t != d.ty() {
+                cc.violation("C13/gff-type/from_str/wrong-type", format!("{:?} -> {:?}", name, t));
+                return;
+            }
+            // and it drives writer and reader like the built-in value
+            let g = to_gff(&probe_record());
+            let res = guard(|| {
+                let wr = |ty: gff::GffType| -> Result<Vec<u8>, String> {
+                    let mut out = vec![];
+                    {
+                        let mut w = gff::Writer::new(&mut out, ty);
+                        w.write(&g).map_err(|e| e.to_string())?;
+                    }
+                    Ok(out)
+                };
+                let (x, y) = (wr(t)?, wr(d.ty())?);
+                let mut rd = gff::Reader::new(&x[..], t);
+                let rx: Vec<Result<gff::Record, String>> = rd.records().take(3).map(|x| x.map_err(|e| e.to_string())).collect();
+                Ok::<_, String>((x, y, rx))
+            });
+            match res {
+                Err(msg) => cc.violation("C13/gff-type/from_str/panic", msg),
+                Ok(Err(e)) => cc.violation(format!("C13/{}/writer/error", d.name()), e),
+                Ok(Ok((x, y, rx))) => {
+                    if x != y || rx.len() != 1 || rx[0].as_ref().ok() != Some(&g) {
+                        cc.violation("C13/gff-type/from_str/behaves-unlike-builtin", format!("{:?}: wrote {:?} (built-in {:?}), read back {:?}", name, show(&x), show(&y), rx));
+                    }
+                }
+            }
+        }
+    }
+}
+
+/// `Phase::from(u8)`, `Phase::from(Option<u8>)`, `TryInto<u8>`, `TryInto<Option<u8>>`: a value
+/// above 2 becomes the "no phase" value (rustdoc of both `From` impls); `TryInto<u8>` fails exactly
+/// for "no phase"; the phase written to a file is the value or '.' and is read back equal.
+/// `v = None` is the case `Phase::from(None)`.
+fn phase_conv_case(v: Option<u8>, cc: &mut CaseCtx) {
+    cc.set_nontrivial(v.map(|x| x >= 2).unwrap_or(true));
+    let want = v.filter(|&p| p < 3);
+    let r = guard(|| {
+        let from_opt = gff::Phase::from(v);
+        let mut routes = vec![("From<Option<u8>>", from_opt.clone())];
+        if let Some(x) = v {
+            let from_u8 = gff::Phase::from(x);
+            if from_u8 != from_opt {
+                cc.violation("C13/gff/phase/from-u8-differs-from-option-route", format!("Phase::from({}) = {:?}, Phase::from(Some({})) = {:?}", x, from_u8, x, from_opt));
+                return;
+            }
+            routes.push(("From<u8>", from_u8));
+        }
+        let none = gff::Phase::from(None::<u8>);
+        for (route, p) in routes {
+            if (p == none) != want.is_none() {
+                cc.violation("C13/gff/phase/validation-differs", format!("{} of {:?} = {:?}, expected the phase {:?}", route, v, p, want));
+                return;
+            }
+            let as_u8: Result<u8, ()> = TryInto::<u8>::try_into(p.clone());
+            if as_u8 != want.ok_or(()) {
+                cc.violation("C13/gff/phase/try-into-u8-differs", format!("{} of {:?} = {:?} -> {:?}, expected {:?}", route, v, p, as_u8, want.ok_or(())));
+                return;
+            }
+            let as_opt: Result<Option<u8>, ()> = TryInto::<Option<u8>>::try_into(p.clone());
+            if as_opt != Ok(want) {
+                cc.violation("C13/gff/phase/try-into-option-differs", format!("{} of {:?} = {:?} -> {:?}, expected Ok({:?})", route, v, p, as_opt, want));
+                return;
+            }
+            // through a file
+            let mut rec = probe_record();
+            rec.phase = want;
+            let mut g = to_gff(&rec);
+            *g.phase_mut() = p.clone();
+            let mut out = vec![];
+            {
+                let mut w = gff::Writer::new(&mut out, gff::GffType::GFF3);
+                if let Err(e) = w.write(&g) {
+                    cc.violation("C13/gff3/writer/error", e.to_string());
+                    return;
+                }
+            }
+            let text = String::from_utf8_lossy(&out).to_string();
+            cc.outcome(&text.split('\t').nth(7).map(|s| s.to_string()));
+            let col = want.map(|x| x.to_string()).unwrap_or_else(|| ".".to_string());
+            let back = read_gff(&out, Dialect::GFF3, 3);
+            let ok = text.split('\t').nth(7) == Some(col.as_str()) && back.len() == 1 && back[0].as_ref().map(|b| b.phase() == &p && gff_getter_mismatch(b, &rec).is_none()).unwrap_or(false);
+            if !ok {
+                cc.violation("C13/gff/phase/written-phase-differs", format!("{} of {:?} = {:?} written as {:?}, read back {:?}", route, v, p, text, back));
+                return;
+            }
+        }
+    });
+    if let Err(msg) = r {
+        cc.violation("C13/gff/phase/panic", msg);
+    }
+}
+
+fn phase_serde_values() -> Vec<Value> {
+    let mut v: Vec<Value> = [".", "0", "1", "2", "3", "9", "255", "256", "x", "", "-1", "1.0", "..", ". "].iter().map(|s| json!(s)).collect();
+    v.extend([json!(null), json!(1), json!(7), json!(true), json!([])]);
+    v
+}
+
+/// `Phase` deserialised on its own (the route the reader uses column by column): ".", "0", "1",
+/// "2" are the four phases, any other text is an error ("Phase must be ".", 0, 1, or 2"), and an
+/// input that is not text at all (the phase is missing) must not panic and must not be coerced into
+/// a phase it does not denote.
+fn phase_serde_case(val: &Value, cc: &mut CaseCtx) {
+    cc.nontrivial();
+    let r = guard(|| serde_json::from_value::<gff::Phase>(val.clone()).map_err(|e| e.to_string()));
+    cc.outcome(&r.as_ref().map(|x| x.is_ok()).unwrap_or(false));
+    let got = match r {
+        Err(msg) => {
+            cc.violation("C13/gff/phase-deserialize/panic", msg);
+            return;
+        }
+        Ok(x) => x,
+    };
+    match val {
+        Value::String(t) => {
+            let want: Option<Option<u8>> = match t.as_str() {
+                "." => Some(None),
+                "0" => Some(Some(0)),
+                "1" => Some(Some(1)),
+                "2" => Some(Some(2)),
+                _ => None,
+            };
+            match (want, got) {
+                (Some(w), Ok(p)) => {
+                    if p != gff::Phase::from(w) {
+                        cc.violation("C13/gff/phase-deserialize/wrong-phase", format!("{:?} -> {:?}", t, p));
+                    }
+                }
+                (Some(_), Err(e)) => cc.violation("C13/gff/phase-deserialize/valid-phase-rejected", format!("{:?} -> Err({})", t, e)),
+                (None, Ok(p)) => cc.violation("C13/gff/phase-deserialize/invalid-phase-accepted", format!("{:?} -> {:?}", t, p)),
+                (None, Err(_)) => {}
+            }
+        }
+        other => {
+            // not text: an error, or (tolerated) the phase the value plainly denotes
+            let denotes: Option<u8> = other.as_u64().filter(|&n| n < 3).map(|n| n as u8);
+            if let Ok(p) = got {
+                if p != gff::Phase::from(denotes) || (denotes.is_none() && !other.is_null()) {
+                    cc.violation("C13/gff/phase-deserialize/non-text-coerced", format!("{} -> {:?}", other, p));
+                }
+            }
+        }
+    }
+}
+
+/// a serialised record whose phase field is missing: an error (or, tolerated, "no phase"), never a
+/// panic or an invented phase
+fn record_without_phase_case(cc: &mut CaseCtx) {
+    cc.nontrivial();
+    let r = guard(|| {
+        let mut v = serde_json::to_value(to_gff(&probe_record())).map_err(|e| e.to_string())?;
+        let had = v.as_object_mut().map(|o| o.remove("phase").is_some()).unwrap_or(false);
+        Ok::<_, String>((had, serde_json::from_value::<gff::Record>(v).map_err(|e| e.to_string())))
+    });
+    match r {
+        Err(msg) => cc.violation("C13/gff/phase-deserialize/panic", msg),
+        // the serialised form has no field of that name: nothing to remove, nothing to check
+        Ok(Err(_)) | Ok(Ok((false, _))) => {}
+        Ok(Ok((true, got))) => {
+            cc.outcome(&got.is_ok());
+            if let Ok(g) = got {
+                if g.phase() != &gff::Phase::from(None::<u8>) {
+                    cc.violation("C13/gff/phase-deserialize/missing-phase-invented", format!("{:?}", g));
+                }
+            }
+        }
+    }
+}
+
+fn gff_file_case(dir: &Path, list: &[GffRec], d: Dialect, cc: &mut CaseCtx) {
+    cc.nontrivial();
+    let dn = d.name();
+    let path = dir.join("case.gff");
+    // the same record objects go to both writers, so the attribute order is the same
+    let recs: Vec<gff::Record> = list.iter().map(to_gff).collect();
+    let r = guard(|| {
+        let mut mem = vec![];
+        {
+            let mut w = gff::Writer::new(&mut mem, d.ty());
+            for r in &recs {
+                if let Err(e) = w.write(r) {
+                    cc.violation(format!("C13/{}/writer/error", dn), e.to_string());
+                    return;
+                }
+            }
+        }
+        match gff::Writer::to_file(&path, d.ty()) {
+            Err(e) => {
+                cc.violation(format!("C13/{}/to_file/error", dn), format!("{:?}: {}", path, e));
+                return;
+            }
+            Ok(mut w) => {
+                for r in &recs {
+                    if let Err(e) = w.write(r) {
+                        cc.violation(format!("C13/{}/to_file/error", dn), format!("write: {}", e));
+                        return;
+                    }
+                }
+            }
+        }
+        let disk = std::fs::read(&path).unwrap_or_default();
+        cc.outcome(&disk.len());
+        if disk != mem {
+            cc.violation(format!("C13/{}/to_file/bytes-differ-from-in-memory-writer", dn), format!("file holds {:?}, Writer::new produced {:?}", show(&disk), show(&mem)));
+            return;
+        }
+        let items: Vec<Result<gff::Record, String>> = match gff::Reader::from_file(&path, d.ty()) {
+            Err(e) => {
+                cc.violation(format!("C13/{}/from_file/error", dn), format!("{:?}: {:#}", path, e));
+                return;
+            }
+            Ok(mut rd) => rd.records().take(list.len() + 3).map(|x| x.map_err(|e| e.to_string())).collect(),
+        };
+        let mem_items = read_gff(&mem, d, list.len() + 3);
+        let model_ok = items.len() == list.len()
+            && items.iter().zip(list).all(|(g, w)| g.as_ref().map(|g| typed_fields(g) == typed_fields(&to_gff(w)) && attrs_of(g) == attr_model(&w.attrs) && gff_getter_mismatch(g, w).is_none()).unwrap_or(false));
+        if items != mem_items || !model_ok {
+            cc.violation(format!("C13/{}/from_file/records-differ", dn), format!("file {:?} read as {:?}, Reader::new gives {:?}, written {:?}", show(&disk), items, mem_items, list));
+        }
+    });
+    if let Err(msg) = r {
+        cc.violation(format!("C13/{}/file/panic", dn), msg);
+    }
+}
+
+/// lines whose phase column is missing (eight or seven columns) or empty, next to a good line
+fn missing_phase_lines() -> Vec<(&'static str, &'static str)> {
+    vec![("gff", "chr1\ts\tgene\t1\t5\t.\t+\tID=a"), ("gff", "chr1\ts\tgene\t1\t5\t.\tID=a"), ("gff", "chr1\ts\tgene\t1\t5\t.\t+\t\t")]
 }
 
 // ------------------------------------------------------------------ corruptions
@@ -828,6 +1846,119 @@ fn corruption_unit(shard: usize, ctx: &mut Ctx) {
     }
 }
 
+const BEDAPI_SHARDS: usize = 2;
+const GFFAPI_SHARDS: usize = 8;
+
+/// public accessors / setters / conversions / file constructors of io::bed
+fn bedapi_unit(shard: usize, unit_name: &str, ctx: &mut Ctx) {
+    let mut idx = 0usize;
+    let mut mine = move || {
+        idx += 1;
+        idx % BEDAPI_SHARDS == shard
+    };
+    for rec in bed_access_records() {
+        if mine() {
+            ctx.case(|| json!({"kind": "bed-access", "record": rec}), |cc| bed_access_case(&rec, cc));
+        }
+    }
+    for (base, ops) in bed_set_cases() {
+        if mine() {
+            ctx.case(|| json!({"kind": "bed-set", "base": base, "ops": ops}), |cc| bed_set_case(&base, &ops, cc));
+        }
+    }
+    for (refid, a, s) in bed_conv_cases() {
+        if mine() {
+            ctx.case(|| json!({"kind": "bed-conv", "refid": refid, "annot": a, "strand": s}), |cc| bed_conv_case(&refid, &a, s, cc));
+        }
+    }
+    let dir = scratch_dir(unit_name);
+    for list in bed_file_lists() {
+        if mine() {
+            ctx.case(|| json!({"kind": "bed-file", "records": list}), |cc| bed_file_case(&dir, &list, cc));
+        }
+    }
+    if shard == 0 {
+        ctx.case(|| json!({"kind": "missing-file"}), |cc| missing_file_case(&dir, cc));
+    }
+    let _ = std::fs::remove_dir_all(&dir);
+}
+
+const ANY_DIALECTS: [Dialect; 3] = [Dialect::AnyGFF3, Dialect::AnyGFF2, Dialect::AnyCustom];
+
+/// getters of io::gff::Record, GffType::from_str, GffType::Any, Phase conversions, file constructors
+fn gffapi_unit(tier: Tier, shard: usize, unit_name: &str, ctx: &mut Ctx) {
+    let mut idx = 0usize;
+    let mut mine = move || {
+        idx += 1;
+        idx % GFFAPI_SHARDS == shard
+    };
+    for name in TYPE_NAMES {
+        if mine() {
+            ctx.case(|| json!({"kind": "gff-type-str", "name": name}), |cc| gff_type_str_case(name, cc));
+        }
+    }
+    for v in std::iter::once(None).chain((0..=255u8).map(Some)) {
+        if mine() {
+            ctx.case(|| json!({"kind": "phase-conv", "value": v}), |cc| phase_conv_case(v, cc));
+        }
+    }
+    for val in phase_serde_values() {
+        if mine() {
+            ctx.case(|| json!({"kind": "phase-serde", "value": val}), |cc| phase_serde_case(&val, cc));
+        }
+    }
+    if mine() {
+        ctx.case(|| json!({"kind": "record-without-phase"}), record_without_phase_case);
+    }
+    for (kind, line) in missing_phase_lines() {
+        if mine() {
+            ctx.case(|| json!({"kind": "malformed", "format": kind, "line": line}), |cc| malformed_clause(kind, line, cc));
+        }
+    }
+    for d in [Dialect::GFF3, Dialect::GFF2, Dialect::GTF2] {
+        for r in gff_access_records(d) {
+            if mine() {
+                ctx.case(|| json!({"kind": "gff", "dialect": d, "record": r}), |cc| gff_roundtrip(&r, d, cc));
+            }
+        }
+    }
+    for d in ANY_DIALECTS {
+        let (s1, s2) = tier.pick((13, 5), (5, 1));
+        let recs: Vec<GffRec> = gff_records(d).into_iter().step_by(s1).chain(gff_access_records(d).into_iter().step_by(s2)).collect();
+        for r in recs {
+            if mine() {
+                ctx.case(|| json!({"kind": "gff", "dialect": d, "record": r}), |cc| gff_roundtrip(&r, d, cc));
+            }
+        }
+        let five = gff_list_records(d);
+        for a in 0..five.len() {
+            for b in 0..five.len() {
+                if mine() {
+                    let list = vec![five[a].clone(), five[b].clone()];
+                    ctx.case(|| json!({"kind": "gff-list", "dialect": d, "records": list}), |cc| gff_list_roundtrip(&list, d, cc));
+                }
+            }
+        }
+    }
+    let dir = scratch_dir(unit_name);
+    for d in [Dialect::GFF3, Dialect::GFF2, Dialect::GTF2, Dialect::AnyCustom] {
+        let five = gff_list_records(d);
+        let mut lists: Vec<Vec<GffRec>> = vec![vec![]];
+        for a in 0..five.len() {
+            lists.push(vec![five[a].clone()]);
+            for b in 0..five.len() {
+                lists.push(vec![five[a].clone(), five[b].clone(), five[(a + b + 1) % five.len()].clone()]);
+            }
+        }
+        for list in lists {
+            if mine() {
+                ctx.case(|| json!({"kind": "gff-file", "dialect": d, "records": list}), |cc| gff_file_case(&dir, &list, d, cc));
+            }
+        }
+    }
+    let _ = std::fs::remove_dir_all(&dir);
+}
+
 impl Prop for C13Prop {
     fn id(&self) -> &'static str {
         "C13"
@@ -836,7 +1967,7 @@ impl Prop for C13Prop {
         "fault_enumeration"
     }
     fn rule(&self) -> &'static str {
-        "BED: every record of a 5x3x8 grid per auxiliary column count k=0..4 as a single-record file, strided pairs and triples with a common k, four comment placements. GFF: three dialects x (score, strand, phase) grid x a family of attribute multimaps (empty, one pair, one key with 2-3 values, two keys interleaved); per record: writer conformance as a multiset of pairs, the reader on EVERY permutation of the written pairs (with and without trailing terminator), and end-to-end. every ordered pair and triple of five GFF records (with and without attributes) through one writer object. Corruptions: every truncation, every single-byte deletion, substitution and insertion from {TAB LF x 9 # . - 3} of six written files (3 GFF dialects, BED with 0/2/3 extra columns), judged by an independent line classifier: the Ok items must be, in order, a subsequence of the well-formed lines. 24 explicit malformed lines. Non-trivial: multi-valued or multi-key attributes; BED lists with quotes/empty fields/comments/several records; corruptions that change the classification of a line."
+        "BED: every record of a 5x3x8 grid per auxiliary column count k=0..4 as a single-record file, strided pairs and triples with a common k, four comment placements. GFF: three dialects x (score, strand, phase) grid x a family of attribute multimaps (empty, one pair, one key with 2-3 values, two keys interleaved); per record: writer conformance as a multiset of pairs, the reader on EVERY permutation of the written pairs (with and without trailing terminator), and end-to-end. every ordered pair and triple of five GFF records (with and without attributes) through one writer object. Corruptions: every truncation, every single-byte deletion, substitution and insertion from {TAB LF x 9 # . - 3} of six written files (3 GFF dialects, BED with 0/2/3 extra columns), judged by an independent line classifier: the Ok items must be, in order, a subsequence of the well-formed lines. 24 explicit malformed lines. Non-trivial: multi-valued or multi-key attributes; BED lists with quotes/empty fields/comments/several records; corruptions that change the classification of a line. Public API (units bedapi-*, gffapi-*, and extra assertions in the cases above): every BED/GFF record written is also compared with the record read back through the public getters (BED chrom/start/end/name/score/strand/aux(i); GFF seqname/source/feature_type/start/end/score/strand/phase). BED: a (name x score x strand x 0/1/6 further columns) grid incl. strands + - . empty and other text, each also converted to a Contig; set_name/set_score sequences of length 1-2 on records with 0..5 auxiliary columns against the documented column model and the push_aux route; From<Pos>/From<Contig>/From<Spliced> over positions, lengths, six strand values (ReqStrand, Strand, NoStrand) and every 1-3 exon structure over exon lengths {1,3,10} and intron lengths {1,5} plus the rustdoc example: record, record read back and Contig::from(&record) carry the coordinates/strand, BED12 columns as in the rustdoc/BED definition; Writer::to_file/Reader::from_file against Writer::new/Reader::new on the same records (private scratch directory), missing paths are errors. GFF: an 8 score x 4 strand x 4 phase grid with the other fixed columns cycling; GffType::from_str on the three names and six other strings; GffType::Any with the GFF3 triple and the GFF2/GTF2 triple (same round-trip checks, plus byte-identical output and identical parse as the built-in on the same record object and on a line with delimiter-joined values) and with the triple (: ! /); Phase::from for None and every u8, TryInto<u8>, TryInto<Option<u8>>, the phase through a written file; Phase deserialised from 14 texts and 5 non-text values, a serialised record without its phase field, three lines without a phase column; file constructors as for BED."
     }
     fn assumptions(&self) -> Vec<&'static str> {
         vec![
@@ -844,6 +1975,10 @@ impl Prop for C13Prop {
             "a BED chrom starting with '#' is a comment line by the format and is excluded",
             "tolerated: a well-formed line rejected because an earlier line fixed another column count in the csv layer; an unterminated '#' fragment at end of input reported as an error",
             "on corrupted lines the attribute column is compared only when it is byte-identical to an original column",
+            "annotation -> BED conversions: non-negative coordinates only (BED has no negative positions); the score of a converted record only has to be a BED score (integer 0..=1000), the item colour 0 or r,g,b, block lists with or without the trailing comma",
+            "strand getters: '+' and '-' must be reported as forward and reverse, anything else as neither (None and an unknown strand are not distinguished)",
+            "GffType::Any is exercised with delimiter bytes that are not regular-expression metacharacters",
+            "file constructors use a private directory under the system temp dir, created and removed by the unit",
         ]
     }
     fn bounds(&self, tier: Tier) -> Value {
@@ -853,21 +1988,38 @@ impl Prop for C13Prop {
             "bed_k": "0..=4", "bed_list_strides": tier.pick("pairs (3,7) triples 5", "pairs (1,3) triples 2"),
             "corruption_bases": corruption_bases().iter().map(|(n, b)| format!("{}:{}B", n, b.len())).collect::<Vec<_>>(),
             "substitution_bytes": "TAB LF x 9 # . - 3",
+            "bed_access_records": bed_access_records().len(),
+            "bed_setter_cases": bed_set_cases().len(),
+            "bed_conversion_cases": bed_conv_cases().len(),
+            "bed_file_lists": bed_file_lists().len(),
+            "gff_access_records_per_dialect": gff_access_records(Dialect::GFF3).len(),
+            "gff_any_triples": ["= ; ,", "SPACE ; NUL", ": ! /"],
+            "gff_any_record_strides": tier.pick("every 13th grid record, every 5th access record", "every 5th grid record, every access record"),
+            "gff_type_names": TYPE_NAMES,
+            "phase_values": "None, 0..=255",
         })
     }
     fn units(&self, _tier: Tier) -> Vec<String> {
         let mut v: Vec<String> = (0..GFF_SHARDS).map(|i| format!("gff-{}", i)).collect();
         v.extend((0..BED_SHARDS).map(|i| format!("bed-{}", i)));
         v.extend((0..CORR_SHARDS).map(|i| format!("corrupt-{}", i)));
+        v.extend((0..BEDAPI_SHARDS).map(|i| format!("bedapi-{}", i)));
+        v.extend((0..GFFAPI_SHARDS).map(|i| format!("gffapi-{}", i)));
         v
     }
     fn run_unit(&self, tier: Tier, unit: usize, ctx: &mut Ctx) {
+        let old = GFF_SHARDS + BED_SHARDS + CORR_SHARDS;
         if unit < GFF_SHARDS {
             gff_unit(unit, ctx);
         } else if unit < GFF_SHARDS + BED_SHARDS {
             bed_unit(tier, unit - GFF_SHARDS, ctx);
-        } else {
+        } else if unit < old {
             corruption_unit(unit - GFF_SHARDS - BED_SHARDS, ctx);
+        } else if unit < old + BEDAPI_SHARDS {
+            bedapi_unit(unit - old, &format!("bedapi-{}", unit - old), ctx);
+        } else if unit < old + BEDAPI_SHARDS + GFFAPI_SHARDS {
+            let shard = unit - old - BEDAPI_SHARDS;
+            gffapi_unit(tier, shard, &format!("gffapi-{}", shard), ctx);
         }
     }
     fn replay(&self, case: &Value, ctx: &mut Ctx) {
@@ -891,6 +2043,54 @@ impl Prop for C13Prop {
                 let kind = if case["format"] == "bed" { "bed" } else { "gff" };
                 let line = case["line"].as_str().unwrap().to_string();
                 ctx.case(|| case.clone(), |cc| malformed_clause(kind, &line, cc));
+            }
+            "bed-access" => {
+                let rec: BedRec = serde_json::from_value(case["record"].clone()).unwrap();
+                ctx.case(|| case.clone(), |cc| bed_access_case(&rec, cc));
+            }
+            "bed-set" => {
+                let base: BedRec = serde_json::from_value(case["base"].clone()).unwrap();
+                let ops: Vec<SetOp> = serde_json::from_value(case["ops"].clone()).unwrap();
+                ctx.case(|| case.clone(), |cc| bed_set_case(&base, &ops, cc));
+            }
+            "bed-conv" => {
+                let refid = case["refid"].as_str().unwrap().to_string();
+                let a: Annot = serde_json::from_value(case["annot"].clone()).unwrap();
+                let s: StrandIn = serde_json::from_value(case["strand"].clone()).unwrap();
+                ctx.case(|| case.clone(), |cc| bed_conv_case(&refid, &a, s, cc));
+            }
+            "bed-file" => {
+                let list: Vec<BedRec> = serde_json::from_value(case["records"].clone()).unwrap();
+                let dir = scratch_dir("replay");
+                ctx.case(|| case.clone(), |cc| bed_file_case(&dir, &list, cc));
+                let _ = std::fs::remove_dir_all(&dir);
+            }
+            "missing-file" => {
+                let dir = scratch_dir("replay");
+                ctx.case(|| case.clone(), |cc| missing_file_case(&dir, cc));
+                let _ = std::fs::remove_dir_all(&dir);
+            }
+            "gff-file" => {
+                let d: Dialect = serde_json::from_value(case["dialect"].clone()).unwrap();
+                let list: Vec<GffRec> = serde_json::from_value(case["records"].clone()).unwrap();
+                let dir = scratch_dir("replay");
+                ctx.case(|| case.clone(), |cc| gff_file_case(&dir, &list, d, cc));
+                let _ = std::fs::remove_dir_all(&dir);
+            }
+            "gff-type-str" => {
+                let name = case["name"].as_str().unwrap().to_string();
+                ctx.case(|| case.clone(), |cc| gff_type_str_case(&name, cc));
+            }
+            "phase-conv" => {
+                let v: Option<u8> = serde_json::from_value(case["value"].clone()).unwrap();
+                ctx.case(|| case.clone(), |cc| phase_conv_case(v, cc));
+            }
+            "phase-serde" => {
+                let val = case["value"].clone();
+                ctx.case(|| case.clone(), |cc| phase_serde_case(&val, cc));
+            }
+            "record-without-phase" => {
+                ctx.case(|| case.clone(), record_without_phase_case);
             }
             "corruption" => {
                 let name = case["base"].as_str().unwrap().to_string();
